@@ -92,24 +92,30 @@ func (NetH) Gen(prop string, seed uint64, tier string) *hx.Case {
 					add(netCmds[r.Intn(len(netCmds))], []string{"valid", "mutate", "trunc", "random"}[r.Intn(4)])
 				}
 			}
+			slow := func(cmd, kind string) { // leaves the node's 100 ms connection tick time to act first
+				id++
+				ops = append(ops, hx.J(NetMsg{P: p, ID: id, Seed: r.U64(), Cmd: cmd, Kind: kind, DelayMs: r.Range(120, 600)}))
+			}
 			add("version", "valid")
 			add("verack", "valid")
 			if r.Chance(0.85) {
 				add("sendcmpct", "valid")
+			}
+			if r.Chance(0.8) {
+				slow("headers", "hdr-empty") // answer to the node's getheaders: nothing new - only now does it ask this peer for blocks
 			}
 			for round := 0; round < 1+r.Intn(3); round++ {
 				noise()
 				switch r.Pick(30, 15, 20, 15, 20) {
 				case 4: // headers first; the node asks for the block with getdata; the peer answers with the block, or with something else
 					add("headers", "hdr-new")
-					noise()
 					switch r.Intn(4) {
 					case 0, 1:
-						add("block", "blk-planned")
+						slow("block", "blk-planned")
 					case 2:
-						add("blocktxn", []string{"bt-valid", "bt-none", "bt-wrong"}[r.Intn(3)])
+						slow("blocktxn", []string{"bt-valid", "bt-none", "bt-wrong"}[r.Intn(3)])
 					default:
-						add("cmpctblock", "cb-short")
+						slow("cmpctblock", "cb-short")
 						add("blocktxn", []string{"bt-valid", "bt-fewer"}[r.Intn(2)])
 					}
 				case 0: // announce by short ids; the node asks for what it misses; answer (or not quite)
@@ -148,7 +154,7 @@ func (NetH) Gen(prop string, seed uint64, tier string) *hx.Case {
 				m.Kind = []string{"valid", "valid", "mutate", "mutate", "trunc", "extend", "random", "empty", "count", "max"}[r.Intn(10)]
 			}
 			if r.Chance(0.03) {
-				m.HdrMut = []string{"magic", "checksum", "length-short", "length-long", "length-huge"}[r.Intn(5)]
+				m.HdrMut = []string{"magic", "checksum", "length-short", "length-long", "length-huge", "length-enc-zero"}[r.Intn(6)]
 			}
 			if r.Chance(0.02) {
 				m.Reset = true
@@ -212,6 +218,10 @@ func wireMsg(cmd string, pl []byte, hdrMut string, r *hx.Rng) []byte {
 		binary.LittleEndian.PutUint32(h[16:20], uint32(len(pl)+1+r.Intn(50)))
 	case "length-huge":
 		binary.LittleEndian.PutUint32(h[16:20], []uint32{0x7fffffff, 0xffffffff, 4000001, 0x80000010}[r.Intn(4)])
+	case "length-enc-zero":
+		// "encrypted" flag (top bit) with a length of zero: no payload follows
+		binary.LittleEndian.PutUint32(h[16:20], 0x80000000)
+		return h[:]
 	}
 	return append(h[:], pl...)
 }
@@ -524,6 +534,8 @@ func (n *netRun) convPayload(m *NetMsg, r *hx.Rng) (pl []byte, ok bool) {
 		n.plans, n.cver = map[int]*cbPlan{}, map[int]int{}
 	}
 	switch m.Kind {
+	case "hdr-empty":
+		return vint(0), true
 	case "hdr-new":
 		cp := n.plan(p, r)
 		if cp == nil {
@@ -741,12 +753,25 @@ func (n *netRun) payload(m *NetMsg, r *hx.Rng) []byte {
 	var pl []byte
 	switch m.Cmd {
 	case "version":
-		pl = n.versionPayload(r, n.model.Height)
+		// the peer claims to be at our height or ahead of us (only then are blocks asked from it)
+		pl = n.versionPayload(r, n.model.Height+[]uint32{0, 1, 3, 100}[r.Intn(4)])
 	case "addr":
 		cnt := r.Range(0, 12)
+		if r.Chance(0.3) {
+			cnt = r.Range(15, 60)
+		}
+		// time stamps: long ago, now, hours and days ahead of the node's clock
+		base := time.Now().Unix() + []int64{-86400 * 30, -600, 0, 3500, 3700, 7300, 86400 * 3}[r.Intn(7)]
+		mixed := r.Chance(0.3)
 		pl = vint(uint64(cnt))
 		for i := 0; i < cnt; i++ {
-			pl = append(pl, netAddr(r, true)...)
+			a := netAddr(r, true)
+			ts := base
+			if mixed {
+				ts = time.Now().Unix() + []int64{-86400 * 30, -600, 0, 3700, 86400 * 3}[r.Intn(5)]
+			}
+			binary.LittleEndian.PutUint32(a[0:4], uint32(ts))
+			pl = append(pl, a...)
 		}
 	case "inv", "getdata", "notfound":
 		pl = n.invPayload(r, r.Range(0, 20))
